@@ -49,7 +49,7 @@ pub fn layout_check<G: ark_ec::AffineRepr + 'static>(shape: &Shape, seed: u64) -
     (ok, format!("{} bytes, {} rounds", bytes.len(), l.len()))
 }
 
-pub fn job_c18<C: Base + 'static>(shape: &Shape, seed: u64, curve: &str) -> Job
+pub fn job_c18<C: Base + 'static>(shape: &Shape, seed: u64, curve: &str, torsion: Option<Vec<C>>) -> Job
 where
     C::ScalarField: Inner,
 {
@@ -57,7 +57,7 @@ where
     // (1) what is proved: every prover message equals the reference formula
     let j9 = crate::scen_c09::job_c09::<C>(shape, seed, curve);
     // (2) what is verified: the combined check equals the reference relations
-    let j3 = crate::scen_c03::job_c03::<C>(shape, seed, curve);
+    let j3 = crate::scen_c03::job_c03::<C>(shape, seed, curve, None);
     // (3) how challenges are derived: transcript schedule, labels, encodings
     let j6 = crate::scen_c06::job_c06_mode::<C>(shape, seed, curve, true);
     for (tag, j) in [("messages", j9), ("relations", j3), ("schedule", j6)] {
@@ -74,7 +74,7 @@ where
     }
     // (4) interoperability with the pinned reference implementation, natively on this curve, and the
     //     generator derivation and the byte layout (concrete translation validation, no symbolic input)
-    for (name, ok) in crate::replay::diff_native::<C>(shape, seed) {
+    for (name, ok) in crate::replay::diff_native::<C>(shape, seed, torsion.clone()) {
         job.check(&format!("reference interop: {}", name), ok, String::new());
     }
     let (ok, d) = layout_check::<C>(shape, seed);
@@ -92,6 +92,8 @@ pub fn c18_shapes(thorough: bool) -> Vec<Shape> {
         Shape::new("three_gates_one_phase", &[Commit, Commit, AllocMul, Mul, AllocMul, Con], &[]),
         Shape::new("two_phase_2_plus_1", &[Commit, AllocMul, Alloc, Con], &[&[Chal, Mul, Con]]),
         Shape::new("two_phase_2_plus_3", &[Commit, AllocMul, AllocMul, Con], &[&[Chal, AllocMul, AllocMul, Alloc, Con]]),
+        Shape::new("two_closures_1_plus_1_plus_2", &[Commit, AllocMul, Con], &[&[Chal, Mul, Con], &[Chal, AllocMul, AllocMul, Con]]),
+        Shape::new("four_gates_exact_power_of_two", &[Commit, AllocMul, AllocMul, AllocMul, AllocMul, Con], &[]),
     ];
     if thorough {
         v.push(Shape::new("four_gates", &[Commit, AllocMul, AllocMul, AllocMul, AllocMul, Con], &[]));
